@@ -11,6 +11,9 @@
 // Rounds run in CHILD PROCESSES (this binary with --child), with GORACE=halt_on_error=1: a race report makes the
 // child exit non-zero right after printing it; the parent captures the child's stderr, attributes it to the round
 // that was running, and writes a replay (seed, round, race report). --replay re-runs that round 30× in children.
+//
+// coldmiss.go adds the rounds in which N goroutines miss ONE entry of a cold normalising cache at the same time with
+// requests that differ only in extracted literals.
 package main
 
 import (
@@ -56,6 +59,8 @@ type scenario struct {
 	// buildGen, when set, makes the rounds of this scenario "hot reload" rounds: ONE plan cache shared by two schema values
 	// of the same shape (generation 1 and 2) whose resolvers answer with their generation tag
 	buildGen func(gen int) (*graphql.Schema, error)
+	// coldMiss marks the rounds of coldmiss.go (one cold NORMALISING cache, requests that share an entry but differ in literals)
+	coldMiss bool
 }
 
 var wideQueries = []string{
@@ -442,6 +447,10 @@ func scenarios(seed uint64, thorough bool) []scenario {
 		out = append(out, scenario{Name: "slowPlan", build: buildSlowPlan, Queries: slowPlanQueries,
 			Ops: []string{"execPlan", "execPlan", "execPlan", "cacheGet", "cacheGet", "do"}})
 	}
+	// overlapping cold misses of near-identical requests on a normalising cache (coldmiss.go)
+	for k := 0; k < 3; k++ {
+		out = append(out, coldMissScenario())
+	}
 	nGen := 6
 	if thorough {
 		nGen = 40
@@ -480,6 +489,7 @@ type roundSpec struct {
 	N        int      `json:"n"`
 	Scripts  [][]step `json:"scripts"`
 	Norm     bool     `json:"normalize"`
+	Hot      int      `json:"hot"` // the query most steps of the round use
 }
 
 func mkRound(seed uint64, i int, scs []scenario) roundSpec {
@@ -492,9 +502,13 @@ func mkRound(seed uint64, i int, scs []scenario) roundSpec {
 	if len(scs[rs.Scenario].Ops) > 0 {
 		ops = scs[rs.Scenario].Ops
 		rs.Norm = false
-		if rs.N == 2 {
+		if rs.N == 2 && !scs[rs.Scenario].coldMiss {
 			rs.N = 8
 		}
+	}
+	rs.Hot = hot
+	if scs[rs.Scenario].coldMiss {
+		rs.Norm = true
 	}
 	for g := 0; g < rs.N; g++ {
 		var sc []step
@@ -570,6 +584,7 @@ func doOne(s *graphql.Schema, q query) string {
 type mismatch struct {
 	Goroutine int    `json:"goroutine"`
 	Step      step   `json:"step"`
+	Request   *query `json:"request,omitempty"`
 	Got       string `json:"got"`
 	Want      string `json:"want"`
 }
@@ -582,12 +597,18 @@ type roundResult struct {
 	Abstract   bool       `json:"abstract"`
 	Mismatches []mismatch `json:"mismatches,omitempty"`
 	Fault      string     `json:"fault,omitempty"`
+	Tags       []string   `json:"tags,omitempty"`
+	Weak       string     `json:"weak,omitempty"`     // the round did not exercise what its scenario is for (not counted as non-trivial)
+	Requests   [][]query  `json:"requests,omitempty"` // per goroutine, when the scenario renders its requests per round
 }
 
 func runRound(rs roundSpec, scs []scenario) roundResult {
 	sc := scs[rs.Scenario]
 	if sc.buildGen != nil {
 		return runTwoGenRound(rs, sc)
+	}
+	if sc.coldMiss {
+		return runColdMissRound(rs, sc)
 	}
 	res := roundResult{Round: rs.Round, Scenario: sc.Name, N: rs.N}
 	// ---- sequential baseline on its own fresh schema
@@ -779,7 +800,10 @@ func main() {
 		if r.Abstract {
 			run.Tag("abstract-types")
 		}
-		run.Case(fmt.Sprintf("%d|%s|%d", r.Round, r.Scenario, r.N), r.N >= 2 && r.Steps >= 2*r.N && r.Fault == "", map[string]interface{}{"round": r.Round, "scenario": r.Scenario, "n": r.N, "steps": r.Steps})
+		for _, t := range r.Tags {
+			run.Tag(t)
+		}
+		run.Case(fmt.Sprintf("%d|%s|%d", r.Round, r.Scenario, r.N), r.N >= 2 && r.Steps >= 2*r.N && r.Fault == "" && r.Weak == "", map[string]interface{}{"round": r.Round, "scenario": r.Scenario, "n": r.N, "steps": r.Steps})
 		rs := mkRound(run.Seed, r.Round, scs)
 		if strings.HasPrefix(r.Fault, "WARM-UP CHECK BROKEN") {
 			run.CheckError(r.Fault)
@@ -792,7 +816,8 @@ func main() {
 		if len(r.Mismatches) > 0 {
 			m := r.Mismatches[0]
 			run.Violation(fmt.Sprintf("a concurrent %s returned a response different from the sequential baseline (N=%d, scenario %s)", m.Step.Op, r.N, r.Scenario),
-				map[string]interface{}{"round": rs, "scenario": scs[rs.Scenario].Name, "queries": scs[rs.Scenario].Queries, "mismatches": r.Mismatches[:min(len(r.Mismatches), 4)]}, false)
+				map[string]interface{}{"round": rs, "scenario": scs[rs.Scenario].Name, "queries": scs[rs.Scenario].Queries, "mismatches": r.Mismatches[:min(len(r.Mismatches), 4)],
+					"requests_per_goroutine": r.Requests}, false)
 		}
 	}
 	runJob := func(j job) {
@@ -884,7 +909,10 @@ func main() {
 		}(j)
 	}
 	wg.Wait()
-	run.Res.Rule = "a round = one cold schema + plan cache + prepared plans shared by N goroutines (N in {2,4,16}) that start together and each run 2-4 steps from {Do, PlanCache.Get+ExecutePlan, ExecutePlan on the shared plan, ValidateDocument, PlanCache.Reset}; non-trivial when N >= 2 goroutines completed >= 2 steps each; each response compared with the sequential baseline of the same request on another fresh schema; built with -race, a race report / panic / deadlock in the child process is a violation"
+	run.Res.Rule = "a round = one cold schema + plan cache + prepared plans shared by N goroutines (N in {2,4,16}) that start together and each run 2-4 steps from {Do, PlanCache.Get+ExecutePlan, ExecutePlan on the shared plan, ValidateDocument, PlanCache.Reset}; non-trivial when N >= 2 goroutines completed >= 2 steps each; each response compared with the sequential baseline of the same request on another fresh schema; built with -race, a race report / panic / deadlock in the child process is a violation; coldMissNearLiterals rounds: one cold NORMALISING cache, every goroutine sends its own variant of one request family (same normalised text, different extracted literals; echo resolvers), the first build is held inside validation until all goroutines are inside Get (bounded wait), each response compared with the same request alone; such a round is non-trivial only if the family premise held (one cache key, distinct literals, served without errors alone)"
+	run.Res.Extra["coldMiss_rounds"] = run.Res.Histogram["scenario="+coldMissName]
+	run.Res.Extra["coldMiss_rounds_with_overlapping_builds"] = run.Res.Histogram["coldMiss:rounds-with-overlapping-builds"]
+	run.Res.Extra["coldMiss_rounds_held_build_saw_all_others_inside_Get"] = run.Res.Histogram["coldMiss:held-build-saw-all-others-enter-Get"]
 	run.Res.Extra["rounds"] = len(jobs)
 	run.Res.Extra["scenarios"] = len(scs)
 	run.Res.Assumptions = []string{"race freedom, absence of panics/deadlocks and equality with the sequential response are sampled over schedules the Go scheduler happened to produce (race detector), not proved for the real binary"}
